@@ -71,9 +71,12 @@ Definition transform (a : tA) (l : list tstmt) : tA * (list tstmt + eA) :=
   (a1, if ok then inl l else inr IdentifierClash).
 
 (* ---- B: typechecker (types of globals; a unit u has type "dimension of u") ---- *)
-Inductive ty := TyScalar | TyDim (u : string).
+(* TyAny: the type of `a / 0` — numbat's literal 0 is polymorphic in its dimension, so the quotient
+   unifies with whatever it is added to (the input then fails at run time with DivisionByZero) *)
+Inductive ty := TyScalar | TyDim (u : string) | TyAny.
 Definition ty_eqb (a b : ty) : bool :=
   match a, b with
+  | TyAny, _ | _, TyAny => true
   | TyScalar, TyScalar => true
   | TyDim u, TyDim v => String.eqb u v
   | _, _ => false
@@ -104,10 +107,11 @@ Definition type_expr (b : tB) (e : expr) : ty + eB :=
       | inr e => inr e
       | inl tx => match type_atom b y with
                   | inr e => inr e
-                  | inl t_y => if ty_eqb tx t_y then inl tx else inr IncompatibleDimensions
+                  | inl t_y => if ty_eqb tx t_y then inl (match tx with TyAny => t_y | _ => tx end)
+                               else inr IncompatibleDimensions
                   end
       end
-  | EDivZero a => type_atom b a
+  | EDivZero a => match type_atom b a with inr e => inr e | inl _ => inl TyAny end
   end.
 
 (* the readable type InterpreterResult::to_markup shows next to a value: only for
@@ -120,7 +124,7 @@ Definition upper_first (s : string) : string :=
       String (if andb (Nat.leb 97 n) (Nat.leb n 122) then ascii_of_nat (n - 32) else ch) r
   end.
 Definition show_ty (t : ty) : string :=
-  match t with TyScalar => "Scalar" | TyDim u => upper_first u end.
+  match t with TyScalar => "Scalar" | TyDim u => upper_first u | TyAny => "?" end.
 Definition shown_type (s : tstmt) (t : ty) : string :=
   match s, t with
   | TExpr _, TyDim u => upper_first u
@@ -308,7 +312,7 @@ Definition show_digest (c : tctx) : string :=
     ++ join "," (sort_strings (map (fun u => u ++ "=" ++ u ++ "[" ++ upper_first u ++ "]") (units b)))
     ++ "];vals=[" ++ join "," (map val (dedup [] (variable_names a))) ++ "];ans=["
     ++ match last_result vm, last_type b with
-       | Some v, Some t => show_value v ++ ":" ++ match t with TyScalar => "-" | TyDim u => upper_first u end
+       | Some v, Some t => show_value v ++ ":" ++ match t with TyDim u => upper_first u | _ => "-" end
        | _, _ => "-"
        end ++ "]".
 
